@@ -64,6 +64,17 @@ From OV Require Proofs.SrcEqMesh.
                                      half a unit of the last digit; a second round trip is the identity; entries with at
                                      most N decimals come back unchanged
      read_fix_outcome                reading any token list: a mesh or Panic Unwrap, the panic iff a token is malformed
+   The SECOND rounding (Proofs/MeshIO3Fl.v): f64::from_str rounds the decimal to a binary64.  With the parser followed by
+   an ARBITRARY function fl on the rationals:
+     fmt_fix_near                    a number strictly within half a unit of the last digit of a decimal prints as it
+     file_roundtrip_fix_fl           write + read = every entry replaced by fl (rnd_fix N entry)   (nothing asked of fl)
+     file_roundtrip_fix_fl_twice     if fl moves every printed decimal by less than 10^-N / 2, the second file is the
+                                     first file and the second round trip is the identity
+     file_roundtrip_fix_fl_twice_rel the same from a relative error bound |fl y - y| <= u |y| for entries with
+                                     u |decimal| < 10^-N / 2 (binary64, u = 2^-53: |decimal| < 10^-N * 4.5e15), and
+                                     |read back - written| <= 10^-N / 2 + u |decimal|.  That the standard library's
+                                     from_str satisfies the bound (correct rounding, no overflow/underflow) is assumed,
+                                     not proved; beyond the bound on the entries nothing is proved here
    Mesh2D (Proofs/MeshIO3Out2.v):
      output_var2_layout              output_var writes, for every j, one line x_i y_j v(i,j) per i and an empty line;
                                      a variable that does not exist panics (Index) on the first node
@@ -72,8 +83,8 @@ From OV Require Proofs.SrcEqMesh.
                                      (j*nx+i)*(nvars+2)+c of the whitespace-token stream is token c of that line
      output_var2_is_projection       the file of output_var = the file of output with the other variables' columns removed
    NOT modelled: the sign of a negative value that rounds to zero (Rust prints "-0.00" and reads -0.0; rationals have no
-   signed zero, the model's token is unsigned), NaN / infinities, and the second rounding of f64::from_str (decimal ->
-   nearest binary64): the instance is exact rational arithmetic.
+   signed zero, the model's token is unsigned), NaN / infinities; the binary64 rounding of f64::from_str is a parameter
+   (fl) of the last four formatter theorems and absent from the others (exact rational arithmetic).
    --------------------------------------------------------------------------------------------------------------- *)
 From Coq Require Import ZArith QArith Qabs Qcanon.
 Close Scope Qc_scope.
@@ -83,6 +94,7 @@ From OV Require Import Proofs.MeshIO3Fmt.
 From OV Require Import Proofs.MeshIO3Inst.
 From OV Require Import Proofs.MeshIO3Out2.
 From OV Require Import Proofs.MeshIO3Any.
+From OV Require Import Proofs.MeshIO3Fl.
 
 Theorem read_layout_roundtrip_rounded : forall (A : Arith) (tok : Type) (fmt : A -> tok) (parse : tok -> res A) (rnd : A -> A),
   (forall x, parse (fmt x) = Ok (rnd x)) ->
@@ -549,6 +561,123 @@ Example read_fix_outcome_nonvacuous :
   Forall (fun r => length r = m1_nvars ex_r0) (m1_vars ex_r0) /\
   @read1 AQ ftok (parse_fix 2) ex_r0 [FTok false 1; FTok false (-1); FTok false 2] = Panic Unwrap.
 Proof. split; [repeat constructor | vm_compute; reflexivity]. Qed.
+
+Theorem fmt_fix_near : forall (N : nat) (z : Z) (y : Q),
+  (Qabs (y - inject_Z z / inject_Z (10 ^ Z.of_nat N)) < (1 # 2) / inject_Z (10 ^ Z.of_nat N))%Q ->
+  fmt_fixQ N y = fmt_fixQ N (inject_Z z / inject_Z (10 ^ Z.of_nat N))%Q.
+Proof. intros N z y. exact (MeshIO3Fl.fmt_fixQ_near N z y). Qed.
+Check fmt_fix_near : forall (N : nat) (z : Z) (y : Q),
+  (Qabs (y - inject_Z z / inject_Z (10 ^ Z.of_nat N)) < (1 # 2) / inject_Z (10 ^ Z.of_nat N))%Q ->
+  fmt_fixQ N y = fmt_fixQ N (inject_Z z / inject_Z (10 ^ Z.of_nat N))%Q.
+Print Assumptions fmt_fix_near.
+(* 0.33 rounded to a multiple of 2^-20 is 173015/524288; it still prints 0.33 *)
+Example fmt_fix_near_nonvacuous :
+  (Qabs ((173015 # 524288) - inject_Z 33 / inject_Z (10 ^ Z.of_nat 2)) < (1 # 2) / inject_Z (10 ^ Z.of_nat 2))%Q /\
+  ~ ((173015 # 524288) == inject_Z 33 / inject_Z (10 ^ Z.of_nat 2))%Q.
+Proof. split; [reflexivity | discriminate]. Qed.
+
+Theorem file_roundtrip_fix_fl : forall (fl : Qc -> Qc) (N : nat) (m m0 : mesh1 AQ AQ),
+  wf1 m -> m1_nvars m0 = m1_nvars m -> Forall (fun r => length r = m1_nvars m0) (m1_vars m0) ->
+  (let* lines := @output1 AQ AQ ftok (fmt_fix N) (fmt_fix N) m in
+   @read1 AQ ftok (parse_fix_fl fl N) m0 (concat lines)) = Ok (map_mesh1 (A:=AQ) (rnd_fix_fl fl N) m) /\
+  (forall x : Qc, rnd_fix_fl fl N x = fl (rnd_fix N x) /\
+     (Qabs (rnd_fix_fl fl N x - x) <= (1 # 2) / inject_Z (10 ^ Z.of_nat N) + Qabs (fl (rnd_fix N x) - rnd_fix N x))%Q).
+Proof. intros fl N m m0 Hwf Hnv Hall. split; [exact (MeshIO3Fl.file_roundtrip_fix_fl fl N m m0 Hwf Hnv Hall)|].
+  intros x. split; [reflexivity | exact (MeshIO3Fl.rnd_fix_fl_err fl N x)]. Qed.
+Check file_roundtrip_fix_fl : forall (fl : Qc -> Qc) (N : nat) (m m0 : mesh1 AQ AQ),
+  wf1 m -> m1_nvars m0 = m1_nvars m -> Forall (fun r => length r = m1_nvars m0) (m1_vars m0) ->
+  (let* lines := @output1 AQ AQ ftok (fmt_fix N) (fmt_fix N) m in
+   @read1 AQ ftok (parse_fix_fl fl N) m0 (concat lines)) = Ok (map_mesh1 (A:=AQ) (rnd_fix_fl fl N) m) /\
+  (forall x : Qc, rnd_fix_fl fl N x = fl (rnd_fix N x) /\
+     (Qabs (rnd_fix_fl fl N x - x) <= (1 # 2) / inject_Z (10 ^ Z.of_nat N) + Qabs (fl (rnd_fix N x) - rnd_fix N x))%Q).
+Print Assumptions file_roundtrip_fix_fl.
+(* the parser rounds to multiples of 2^-20: 1/3 -> 0.33 -> 173015/524288 *)
+Example file_roundtrip_fix_fl_nonvacuous :
+  meshQ_view (let* lines := @output1 AQ AQ ftok (fmt_fix 2) (fmt_fix 2) ex_r in
+              @read1 AQ ftok (parse_fix_fl fl_bin20 2) ex_r0 (concat lines)) =
+  meshQ_view (Ok (map_mesh1 (A:=AQ) (rnd_fix_fl fl_bin20 2) ex_r)) /\
+  this (rnd_fix_fl fl_bin20 2 (q 1 3)) = (173015 # 524288)%Q /\
+  fmt_fix 2 (rnd_fix_fl fl_bin20 2 (q 1 3)) = FTok false 33.
+Proof. exact fl_bin20_run. Qed.
+
+Theorem file_roundtrip_fix_fl_twice : forall (fl : Qc -> Qc) (N : nat) (m m0 m1 : mesh1 AQ AQ),
+  (forall x : Qc, In x (m1_nodes m ++ concat (m1_vars m)) ->
+     (Qabs (fl (rnd_fix N x) - rnd_fix N x) < (1 # 2) / inject_Z (10 ^ Z.of_nat N))%Q) ->
+  wf1 m -> m1_nvars m0 = m1_nvars m -> m1_nvars m1 = m1_nvars m ->
+  Forall (fun r => length r = m1_nvars m0) (m1_vars m0) ->
+  Forall (fun r => length r = m1_nvars m1) (m1_vars m1) ->
+  exists lines m',
+    @output1 AQ AQ ftok (fmt_fix N) (fmt_fix N) m = Ok lines /\
+    @read1 AQ ftok (parse_fix_fl fl N) m0 (concat lines) = Ok m' /\
+    m' = map_mesh1 (A:=AQ) (rnd_fix_fl fl N) m /\
+    @output1 AQ AQ ftok (fmt_fix N) (fmt_fix N) m' = Ok lines /\
+    @read1 AQ ftok (parse_fix_fl fl N) m1 (concat lines) = Ok m'.
+Proof. intros fl N m m0 m1. exact (MeshIO3Fl.file_roundtrip_fix_fl_twice fl N m m0 m1). Qed.
+Check file_roundtrip_fix_fl_twice : forall (fl : Qc -> Qc) (N : nat) (m m0 m1 : mesh1 AQ AQ),
+  (forall x : Qc, In x (m1_nodes m ++ concat (m1_vars m)) ->
+     (Qabs (fl (rnd_fix N x) - rnd_fix N x) < (1 # 2) / inject_Z (10 ^ Z.of_nat N))%Q) ->
+  wf1 m -> m1_nvars m0 = m1_nvars m -> m1_nvars m1 = m1_nvars m ->
+  Forall (fun r => length r = m1_nvars m0) (m1_vars m0) ->
+  Forall (fun r => length r = m1_nvars m1) (m1_vars m1) ->
+  exists lines m',
+    @output1 AQ AQ ftok (fmt_fix N) (fmt_fix N) m = Ok lines /\
+    @read1 AQ ftok (parse_fix_fl fl N) m0 (concat lines) = Ok m' /\
+    m' = map_mesh1 (A:=AQ) (rnd_fix_fl fl N) m /\
+    @output1 AQ AQ ftok (fmt_fix N) (fmt_fix N) m' = Ok lines /\
+    @read1 AQ ftok (parse_fix_fl fl N) m1 (concat lines) = Ok m'.
+Print Assumptions file_roundtrip_fix_fl_twice.
+Example file_roundtrip_fix_fl_twice_nonvacuous :
+  (forall x : Qc, In x (m1_nodes ex_r ++ concat (m1_vars ex_r)) ->
+     (Qabs (fl_bin20 (rnd_fix 2 x) - rnd_fix 2 x) < (1 # 2) / inject_Z (10 ^ Z.of_nat 2))%Q) /\ wf1 ex_r.
+Proof.
+  split; [|exact ex_r_wf]. intros x _. eapply Qle_lt_trans; [apply fl_bin20_err | reflexivity].
+Qed.
+
+Theorem file_roundtrip_fix_fl_twice_rel : forall (fl : Qc -> Qc) (u : Q),
+  (forall y : Qc, (Qabs (fl y - y) <= u * Qabs y)%Q) ->
+  forall (N : nat) (m m0 m1 : mesh1 AQ AQ),
+  (forall x : Qc, In x (m1_nodes m ++ concat (m1_vars m)) ->
+     (u * Qabs (rnd_fix N x) < (1 # 2) / inject_Z (10 ^ Z.of_nat N))%Q) ->
+  wf1 m -> m1_nvars m0 = m1_nvars m -> m1_nvars m1 = m1_nvars m ->
+  Forall (fun r => length r = m1_nvars m0) (m1_vars m0) ->
+  Forall (fun r => length r = m1_nvars m1) (m1_vars m1) ->
+  (exists lines m',
+    @output1 AQ AQ ftok (fmt_fix N) (fmt_fix N) m = Ok lines /\
+    @read1 AQ ftok (parse_fix_fl fl N) m0 (concat lines) = Ok m' /\
+    m' = map_mesh1 (A:=AQ) (rnd_fix_fl fl N) m /\
+    @output1 AQ AQ ftok (fmt_fix N) (fmt_fix N) m' = Ok lines /\
+    @read1 AQ ftok (parse_fix_fl fl N) m1 (concat lines) = Ok m') /\
+  (forall x : Qc, (Qabs (rnd_fix_fl fl N x - x) <= (1 # 2) / inject_Z (10 ^ Z.of_nat N) + u * Qabs (rnd_fix N x))%Q).
+Proof. intros fl u Hrel N m m0 m1 Hb Hwf Hnv0 Hnv1 Hall0 Hall1.
+  split; [exact (MeshIO3Fl.file_roundtrip_fix_fl_twice_rel fl u Hrel N m m0 m1 Hb Hwf Hnv0 Hnv1 Hall0 Hall1)|].
+  exact (MeshIO3Fl.rnd_fix_fl_err_rel fl u Hrel N). Qed.
+Check file_roundtrip_fix_fl_twice_rel : forall (fl : Qc -> Qc) (u : Q),
+  (forall y : Qc, (Qabs (fl y - y) <= u * Qabs y)%Q) ->
+  forall (N : nat) (m m0 m1 : mesh1 AQ AQ),
+  (forall x : Qc, In x (m1_nodes m ++ concat (m1_vars m)) ->
+     (u * Qabs (rnd_fix N x) < (1 # 2) / inject_Z (10 ^ Z.of_nat N))%Q) ->
+  wf1 m -> m1_nvars m0 = m1_nvars m -> m1_nvars m1 = m1_nvars m ->
+  Forall (fun r => length r = m1_nvars m0) (m1_vars m0) ->
+  Forall (fun r => length r = m1_nvars m1) (m1_vars m1) ->
+  (exists lines m',
+    @output1 AQ AQ ftok (fmt_fix N) (fmt_fix N) m = Ok lines /\
+    @read1 AQ ftok (parse_fix_fl fl N) m0 (concat lines) = Ok m' /\
+    m' = map_mesh1 (A:=AQ) (rnd_fix_fl fl N) m /\
+    @output1 AQ AQ ftok (fmt_fix N) (fmt_fix N) m' = Ok lines /\
+    @read1 AQ ftok (parse_fix_fl fl N) m1 (concat lines) = Ok m') /\
+  (forall x : Qc, (Qabs (rnd_fix_fl fl N x - x) <= (1 # 2) / inject_Z (10 ^ Z.of_nat N) + u * Qabs (rnd_fix N x))%Q).
+Print Assumptions file_roundtrip_fix_fl_twice_rel.
+(* a relative perturbation of exactly 2^-30; the entries of ex_r are below 10^-2 / (2 * 2^-30) *)
+Example file_roundtrip_fix_fl_twice_rel_nonvacuous :
+  (forall y : Qc, (Qabs (fl_scale y - y) <= (1 # 1073741824) * Qabs y)%Q) /\
+  (forall x : Qc, In x (m1_nodes ex_r ++ concat (m1_vars ex_r)) ->
+     ((1 # 1073741824) * Qabs (rnd_fix 2 x) < (1 # 2) / inject_Z (10 ^ Z.of_nat 2))%Q) /\
+  fl_scale (q 1 3) <> q 1 3.
+Proof.
+  split; [exact fl_scale_rel|]. split.
+  - intros x Hx. cbn in Hx. repeat (destruct Hx as [<-|Hx]; [vm_compute; reflexivity|]). destruct Hx.
+  - intros E. apply (f_equal this) in E. vm_compute in E. discriminate.
+Qed.
 
 Theorem output_var2_layout : forall (A : Arith) (tok : Type) (fmt : A -> tok) (m : mesh2 A A) var,
   wf2 m ->
